@@ -913,8 +913,9 @@ func c17StaleAlias(p *chk.Prog, r *chk.Report) {
 					}
 					n++
 					redef := func(nd ast.Node) bool {
+						// (the defining statement itself, met again on the way round a loop, refreshes the local)
 						a2, ok := nd.(*ast.AssignStmt)
-						if !ok || nd == d.Node {
+						if !ok {
 							return false
 						}
 						for _, l2 := range a2.Lhs {
